@@ -255,6 +255,15 @@ mod verif_replay_c11_key {
         let (a, b) = (summary(%(u1)s, %(p1)s, %(c1)s), summary(%(u2)s, %(p2)s, %(c2)s));
         assert_ne!(a.to_key_string(), b.to_key_string(), "two different callers share one failed-authorization entry (their denials are counted under the first one)");
     }
+    #[test]
+    fn c11_different_destinations_have_different_summary_keys() {
+        // one caller denied on two endpoints that share the address (WireServer :80, HostGAPlugin :32526) and on another address
+        let base = summary("u", "/p", "p x");
+        let mut other_port = summary("u", "/p", "p x"); other_port.port = 32526;
+        let mut other_ip = summary("u", "/p", "p x"); other_ip.ip = "168.63.129.16".to_string();
+        assert_ne!(base.to_key_string(), other_port.to_key_string(), "denials on two ports of one address share one failed-authorization entry");
+        assert_ne!(base.to_key_string(), other_ip.to_key_string(), "denials on two addresses share one failed-authorization entry");
+    }
 }
 '''
 
@@ -278,8 +287,29 @@ def check_summary_key(rep, ctx):
     if shape_ok:
         r = paths[0]
         v = origin(r.ret)
-        shape_ok = isinstance(v, Agg) and v.name == "fmt::Formatted"
-        if shape_ok:
+        joined = None
+        if isinstance(v, Sym) and isinstance(v.tag, tuple) and v.tag[0] == "ret" and re.search(r"(^|::)join$", v.tag[1]):
+            je = [e for e in r.events if e.ret is v]
+            if je and isinstance(origin(je[0].rargs[0]), Agg) and isinstance(origin(je[0].rargs[1]), StrV):
+                joined = (origin(je[0].rargs[0]).fields, origin(je[0].rargs[1]).e.as_string())
+        if joined is not None:
+            # [a, b, c].join(sep): the same text as format!("{}<sep>{}<sep>{}", a, b, c)
+            for a in joined[0]:
+                x = origin(a)
+                for _ in range(3):
+                    if isinstance(x, Sym) and x.tag[0] == "ret" and re.search(r"to_string_lossy$|display$|as_str$|to_str$|as_ref$|to_string$", x.tag[1]):
+                        ev = [e for e in r.events if e.ret is x]
+                        x = origin(ev[0].rargs[0]) if ev else x
+                nm = None
+                if isinstance(x, Sym) and x.tag[0] == "part" and isinstance(x.tag[2], tuple) and x.tag[2][0] == "f" and x.tag[2][1] < len(fields):
+                    nm = fields[x.tag[2][1]]
+                leaves_f.append(nm)
+            sep = joined[1].encode("utf-8")
+            template = b"".join((bytes([len(sep)]) + sep if k else b"") + b"\xc0" for k in range(len(leaves_f))) + b"\x00"
+            shape_ok = need <= set(leaves_f) and None not in leaves_f
+        else:
+            shape_ok = isinstance(v, Agg) and v.name == "fmt::Formatted"
+        if shape_ok and joined is None:
             args_ = v.fields[0]
             template = unescape_bytes_const(args_.fields[0].text) if isinstance(args_.fields[0], ConstV) else None
             arr = args_.fields[1] if len(args_.fields) > 1 else None
@@ -300,7 +330,8 @@ def check_summary_key(rep, ctx):
         import replay as rp
         code = KEY_REPLAY % {"u1": '"Verif"', "p1": '"/usr/bin/Tool"', "c1": '"Tool -V"', "u2": '"verif"', "p2": '"/usr/bin/tool"', "c2": '"tool -v"'}
         res_, _o = rp.run_rust_tests("azure-proxy-agent", [("proxy_agent/src/proxy/proxy_summary.rs", code)], "verif_replay_c11_key", no_args=True)
-        st = (res_ or {}).get("c11_different_callers_have_different_summary_keys")
+        sts = [(res_ or {}).get("c11_different_callers_have_different_summary_keys"), (res_ or {}).get("c11_different_destinations_have_different_summary_keys")]
+        st = "FAILED" if "FAILED" in sts else sts[0]
         q = rep.queries[-1]
         q.replay = save_replay("C11", "summary_key_case.rs", "// append to proxy_agent/src/proxy/proxy_summary.rs; run the whole azure-proxy-agent test binary\n" + code)
         q.detail += " || native replay (callers differing only in letter case): %s" % st
